@@ -52,6 +52,11 @@ def t_sga(E):
         T.agrees(E.I.to_u(E.method(tr2, "get_choices")), c.t), E.eq(tr2.fields["inner"], inner2)))
     E.prove("C15.Dimap.generate.retval", E.eq(E.method(tr2, "get_retval"),
                                               ap(E, post, args, inner_args, E.method(inner2, "get_retval"))))
+    # the whole view of the generated trace, as for simulate: in particular its arguments are the OUTER arguments (a later
+    # update with default argdiffs starts from trace.get_args())
+    E.prove("C15.Dimap.generate.behaves_as_inner_on_pre_args", E.And(
+        E.eq(E.method(tr2, "get_args"), args), E.eq(E.method(tr2, "get_choices"), E.method(inner2, "get_choices")),
+        E.eq(E.method(tr2, "get_score"), E.method(inner2, "get_score")), E.eq(E.method(tr2, "get_gen_fn"), dm)), also=["C01"])
     s, r = E.method(dm, "assess", c, args)
     E.prove("C02.Dimap.assess.eq_dens", E.eq(s, SReal(T.assess_score(g.t, c.t, E.I.to_u(inner_args)))))
     E.prove("C15.Dimap.assess.retval", E.eq(r, ap(E, post, args, inner_args, UVal(T.assess_ret(g.t, c.t, E.I.to_u(inner_args))))))
@@ -60,7 +65,7 @@ def t_sga(E):
     E.refutable("dimap.simulate_generate_assess", E.eq(E.method(tr, "get_retval"), E.method(inner, "get_retval")))
 
 
-@task("dimap.edit", props=["C01", "C05", "C06", "C08", "C15"], functions=FUNCS)
+@task("dimap.edit", props=["C01", "C05", "C06", "C08", "C15", "C16"], functions=FUNCS)
 def t_edit(E):
     T, INCR = E.I.T, E.I.INCR
     dm, g, pre, post = setup(E)
@@ -99,7 +104,9 @@ def t_edit(E):
     E.prove("C05.Dimap.edit.weight_is_score_change", E.Implies(
         E.Not(fresh), E.eq(w, E.I.binop("Sub", E.method(new, "get_score"), E.method(old, "get_score")))))
     E.prove("C15.Dimap.edit.retval_is_post_of_new_args",
-            E.eq(E.method(new, "get_retval"), ap(E, post, primals, new_inner_args, E.method(inner_new, "get_retval"))))
+            E.eq(E.method(new, "get_retval"), ap(E, post, primals, new_inner_args, E.method(inner_new, "get_retval"))),
+            # (C16: masked_iterate_final keeps the value of a masked-off step through a Dimap whose post reads the NEW arguments)
+            also=["C16"])
     E.prove("C08.Dimap.edit.retdiff_primal_is_new_retval",
             E.eq(E.call(INC + ":Diff.tree_primal", rd), E.method(new, "get_retval")))
     # tag soundness: instantiate the incremental contract's clause (S) at the previous inputs of both calls
